@@ -9,6 +9,7 @@ import (
 	_ "pdverif/internal/gc"
 	_ "pdverif/internal/bootstraph"
 	_ "pdverif/internal/clusterh"
+	_ "pdverif/internal/configh"
 	_ "pdverif/internal/idalloc"
 	_ "pdverif/internal/placementh"
 	_ "pdverif/internal/regionh"
